@@ -51,15 +51,25 @@ def g_traj(draw):
         else:
             c["X"] = gen.integral(c["X"])
     c["dask"] = gen.boolean(draw)
+    c["isolate"], c["order_seed"] = gen.boolean(draw), gen.integer(draw, 0, 999)
     c["chunks"] = gen.composition(draw, c["X"].shape[0], max_parts=6)
     return c
+
+
+def kfit(m, case):
+    from vf import sched
+
+    if case.get("dask"):
+        with sched.owned("random", int(case.get("order_seed", 0)), bool(case.get("isolate", False))):
+            return m.fit(data_arg(case))
+    return m.fit(data_arg(case))
 
 
 def impl_trajectory(case, K):
     cents, crit = [], [None]
     for k in range(K + 1):
         m = km_machine(case, k)
-        m.fit(data_arg(case))
+        kfit(m, case)
         cents.append(np.array(m.centroids_, dtype=float))
         if k >= 1:
             crit.append(float(m.average_min_distance))
@@ -139,6 +149,7 @@ def g_stop(draw):
     if c["thr"] is None and c["cap"] is None:
         c["cap"] = 3
     c["dask"] = gen.boolean(draw)
+    c["isolate"], c["order_seed"] = gen.boolean(draw), gen.integer(draw, 0, 999)
     c["chunks"] = gen.composition(draw, c["X"].shape[0], max_parts=6)
     return c
 
@@ -148,7 +159,7 @@ def c_stop(ctx, case):
     """Training stops at the cap or at the first iteration >= 2 whose relative criterion change is <= threshold."""
     X, k, thr, cap = case["X"], case["k"], case["thr"], case["cap"]
     m0 = km_machine(case, 0)
-    m0.fit(data_arg(case))
+    kfit(m0, case)
     cent = np.array(m0.centroids_, dtype=float)
     Kmax = cap if cap is not None else 30
     cents, D = [cent], [None]
@@ -168,7 +179,7 @@ def c_stop(ctx, case):
     if closest < 1e-6 and thr:
         ctx.discard("convergence value within 1e-6 of the threshold")
     m = km_machine(case, cap, thr)
-    m.fit(data_arg(case))
+    kfit(m, case)
     got = np.array(m.centroids_, dtype=float)
     sc = float(np.abs(X).max())
     spread = float(np.abs(X - X.mean(axis=0)).max()) + 1e-300
